@@ -20,7 +20,10 @@ RULE = (
     "INSERT, Core UPDATE(onupdate), ORM UPDATE (quick tier: every other combination for the two UPDATE forms)}; exhaustive 2-row executemany over 1 column x 6 kinds x all 9 "
     "pattern pairs (heterogeneous ones included) for Core INSERT and UPDATE; random: 3 columns, 2-4 parameter sets, "
     "homogeneous (70%) or heterogeneous key sets, explicit or autoincrement primary key, with/without "
-    "return_defaults(); ORM flushes of 1-4 objects with mixed key sets. non-trivial = some column with a default "
+    "return_defaults(); insert().values([rows]) with 3 rows x all 27 present/None/omitted patterns per default kind "
+    "and random 2-4 rows x 3 columns; Update.ordered_values() over all pairs of onupdate kinds x 4 orders and random "
+    "3-column single/executemany; INSERT with implicit_returning=False and a pre-executed SQL primary-key default "
+    "evaluating to 0, 5, -3, NULL (and '', False, '0' oracle-only); ORM flushes of 1-4 objects with mixed key sets. non-trivial = some column with a default "
     "is omitted by some row and some column is supplied by some row"
 )
 TRUSTED = [
@@ -44,6 +47,9 @@ ANCHORS = [
     ("lib/sqlalchemy/sql/crud.py", "_append_param_parameter"),
     ("lib/sqlalchemy/sql/crud.py", "_append_param_insert_hasdefault"),
     ("lib/sqlalchemy/sql/crud.py", "_append_param_update"),
+    ("lib/sqlalchemy/sql/crud.py", "_extend_values_for_multiparams"),
+    ("lib/sqlalchemy/sql/crud.py", "_process_multiparam_default_bind"),
+    ("lib/sqlalchemy/sql/crud.py", "_append_param_insert_pk_no_returning"),
     ("lib/sqlalchemy/engine/default.py", "DefaultExecutionContext._process_execute_defaults"),
     ("lib/sqlalchemy/engine/default.py", "DefaultExecutionContext.get_insert_default"),
     ("lib/sqlalchemy/engine/default.py", "DefaultExecutionContext.get_update_default"),
@@ -54,7 +60,7 @@ ANCHORS = [
 ]
 
 NONE, SCALAR, CALLABLE, CTX, SQL, SERVER = range(6)
-OP_CINS, OP_CUPD, OP_OINS, OP_OUPD = 0, 1, 2, 3
+OP_CINS, OP_CUPD, OP_OINS, OP_OUPD, OP_MVAL, OP_ORD, OP_PKPRE, OP_PKFALSY = 0, 1, 2, 3, 4, 5, 6, 7
 
 
 def translate(repo, outdir):
@@ -131,6 +137,53 @@ def gen_cases(rng, tier):
             ups = [_pset(1, [pa, "value"]), _pset(2, [pb, "value"], base=17)]
             cases.append({"in": [OP_CUPD, cols, base, ups, [0]], "kind": "upd2"})
             cases.append({"in": [OP_OUPD, cols, base, ups, [0]], "kind": "orm-upd2"})
+    # ---- insert(t).values([row, row, ...]): per row and column present / None / omitted ----
+    mkinds = [NONE, SCALAR, CALLABLE, SQL, SERVER]
+    for k1 in mkinds:
+        cols = mk_cols([k1, NONE])
+        for pats in itertools.product(PATTERNS, repeat=3):
+            rows = [_pset(5 + r, [pats[r], "value"], base=7 + 10 * r) for r in range(3)]
+            cases.append({"in": [OP_MVAL, cols, [], rows, [0]], "kind": "multivalues3"})
+    for _ in range(600 if tier == "thorough" else 130):
+        ks = [rng.choice(mkinds) for _ in range(3)]
+        cols = mk_cols(ks)
+        n = rng.randint(2, 4)
+        auto = rng.random() < 0.25
+        rows = [_pset(None if auto else 20 + r, [rng.choice(PATTERNS) for _ in range(3)], base=30 + 10 * r)
+                for r in range(n)]
+        cases.append({"in": [OP_MVAL, cols, _base_rows(rng.choice([0, 2]), 3), rows, [0]], "kind": "multivalues-random"})
+    # ---- Update.ordered_values(): onupdate of the columns outside the list ----
+    for k1, k2 in itertools.product(kinds, repeat=2):
+        cols = mk_cols([k1, k2])
+        for order in ([1], [2], [2, 1], [1, 2]):
+            if tier != "thorough" and (k1 + k2 + len(order) + order[0]) % 2:
+                continue
+            pats = ["value" if (i + 1) in order else "omit" for i in range(2)]
+            if (k1 * 7 + k2) % 3 == 0:
+                pats = ["none" if p == "value" else p for p in pats]
+            cases.append({"in": [OP_ORD, cols, _base_rows(1, 2), [_pset(1, pats)], order], "kind": "ordered1"})
+    for _ in range(400 if tier == "thorough" else 90):
+        ks = [rng.choice(kinds) for _ in range(3)]
+        cols = mk_cols(ks)
+        order = rng.sample([1, 2, 3], rng.randint(1, 3))
+        n = rng.randint(1, 3)
+        psets = []
+        for r in range(n):
+            pats = [rng.choice(["value", "none"]) if (i + 1) in order else "omit" for i in range(3)]
+            psets.append(_pset(r + 1, pats, base=30 + 10 * r))
+        cases.append({"in": [OP_ORD, cols, _base_rows(n, 3), psets, order], "kind": "ordered-random"})
+    # ---- pre-executed SQL-expression primary key default (implicit_returning=False), falsy values ----
+    for fetched in (0, 5, -3, []):
+        for k1 in kinds:
+            for pat in PATTERNS:
+                if tier != "thorough" and fetched in (5, -3) and pat == "none":
+                    continue
+                cases.append({"in": [OP_PKPRE, mk_cols([k1]), _base_rows(2 if fetched == [] else 0, 1),
+                                     [_pset(None, [pat])], [fetched]], "kind": "pk-preexec"})
+    for variant in range(4):
+        for pat in ("omit", "value"):
+            cases.append({"in": [OP_PKFALSY, mk_cols([SCALAR]), [], [_pset(None, [pat])], [variant]],
+                          "kind": "pk-falsy", "model": False})
     # ---- random ----
     nrand = 3000 if tier == "thorough" else 320
     for _ in range(nrand):
@@ -203,16 +256,25 @@ def ctxval(f, params, n):
             kk = 0
         elif k.startswith("c") and k[1:].isdigit():
             kk = int(k[1:])
+        elif k.startswith("v_c") and k[3:].isdigit():
+            kk = int(k[3:])
         else:
             continue
         s += (kk + 1) * v
     return 50000 * (f + 1) + n + s
 
 
-def _build_table(cols, update):
+def _build_table(cols, update, pk=None):
     sa = _ENV["sa"]
     counts = {}
-    columns = [sa.Column("id", sa.Integer, primary_key=True)]
+    tkw = {}
+    if pk is None:
+        columns = [sa.Column("id", sa.Integer, primary_key=True)]
+    else:
+        # a primary key whose SQL-expression default has to be pre-executed (no RETURNING)
+        ptype, sqltext = pk
+        columns = [sa.Column("id", ptype, primary_key=True, default=sa.text(sqltext))]
+        tkw["implicit_returning"] = False
 
     def mk_callable(f):
         def fn():
@@ -250,7 +312,7 @@ def _build_table(cols, update):
         elif arg is not None:
             kw["onupdate" if update else "default"] = arg
         columns.append(sa.Column("c%d" % key, sa.Integer, **kw))
-    t = sa.Table("t", sa.MetaData(), *columns)
+    t = sa.Table("t", sa.MetaData(), *columns, **tkw)
     return t, counts
 
 
@@ -269,8 +331,13 @@ def impl(c):
     from sqlalchemy.orm import Session, registry
 
     op, cols, base, psets, flags = c["in"]
-    update = op in (OP_CUPD, OP_OUPD)
-    t, counts = _build_table(cols, update)
+    update = op in (OP_CUPD, OP_OUPD, OP_ORD)
+    pk = None
+    if op == OP_PKPRE:
+        pk = (sa.Integer, "NULL" if flags[0] == [] else "%d" % flags[0])
+    elif op == OP_PKFALSY:
+        pk = [(sa.String(10), "''"), (sa.Boolean, "0"), (sa.Integer, "0"), (sa.String(10), "'0'")][flags[0]]
+    t, counts = _build_table(cols, update, pk)
     names = ["id"] + ["c%d" % k for k, _ in cols[1:]]
     info = {"rd": None, "ipk": None, "orm_state": None}
     obs = None
@@ -296,6 +363,19 @@ def impl(c):
                 elif flags[0]:
                     info["ipk"] = [list(x) for x in r.inserted_primary_key_rows]
                     info["rd"] = [dict(x._mapping) for x in r.returned_defaults_rows or []]
+            elif op == OP_MVAL:
+                r = conn.execute(t.insert().values([_pd(p) for p in psets]))
+            elif op in (OP_PKPRE, OP_PKFALSY):
+                r = conn.execute(t.insert(), _pd(psets[0]))
+                info["ipk"] = [list(r.inserted_primary_key)]
+            elif op == OP_ORD:
+                order = flags
+                stmt = t.update().where(t.c.id == sa.bindparam("bid")).ordered_values(
+                    *[(t.c["c%d" % k], sa.bindparam("v_c%d" % k)) for k in order])
+                params = []
+                for p in psets:
+                    params.append({("bid" if k == 0 else "v_c%d" % k): (None if v == [] else v) for k, v in p})
+                conn.execute(stmt, params if len(params) > 1 else params[0])
             elif op == OP_CUPD:
                 stmt = t.update().where(t.c.id == sa.bindparam("bid"))
                 params = [_pd(p, True) for p in psets]
@@ -323,9 +403,20 @@ def impl(c):
                     s.flush()
                     info["orm_state"] = [[getattr(o, n) for n in names] for o in objs]
                 reg.dispose()
-            rows = [list(x) for x in conn.execute(sa.text("select %s from t order by id" % ", ".join(names)))]
+            rows = [list(x) for x in conn.exec_driver_sql("select %s from t order by rowid" % ", ".join(names))]
+            if op == OP_PKFALSY:
+                info["raw_rows"] = rows
+                rows = [[0] + r[1:] for r in rows]
             fns = [d[1] for _, d in cols if d[0] in (CALLABLE, CTX)]
             obs = [0, [[V(v) for v in row] for row in rows], [counts.get(f, 0) for f in fns]]
+        except exc.CompileError as ex:
+            import re
+
+            m = re.search(r"INSERT value for column t\.(\w+) is explicitly rendered as a bound", str(ex))
+            if not m:
+                raise
+            name = m.group(1)
+            obs = [2, 0 if name == "id" else int(name[1:])]
         except exc.StatementError as ex:
             msg = str(ex.orig) if ex.orig is not None else str(ex)
             import re
@@ -334,7 +425,7 @@ def impl(c):
             if not m:
                 raise
             name = m.group(1)
-            key = 0 if name in ("id", "bid", "t_id") else int(name[1:])
+            key = 0 if name in ("id", "bid", "t_id") else int(name[3:] if name.startswith("v_c") else name[1:])
             obs = [1, int(m.group(2) or 0), key]
             rows = None
         finally:
@@ -348,9 +439,23 @@ def impl(c):
 # the property, checked directly
 def _check(inp, obs, info):
     op, cols, base, psets, flags = inp
-    update = op in (OP_CUPD, OP_OUPD)
+    update = op in (OP_CUPD, OP_OUPD, OP_ORD)
     orm = op in (OP_OINS, OP_OUPD)
+    many = op in (OP_CINS, OP_CUPD)  # executemany forms whose column keys come from the first set
     keysets = [frozenset(k for k, _ in p) for p in psets]
+    kinds = {k: d[0] for k, d in cols}
+    if op in (OP_PKPRE, OP_PKFALSY):
+        return _check_pk(inp, obs, info)
+    if obs[0] == 2:
+        # insert().values([...]): a row after the first lacks a column of the VALUES list that has no Python /
+        # SQL default (documented CompileError)
+        key = obs[1]
+        if op == OP_MVAL and key in keysets[0] and kinds.get(key) in (NONE, SERVER) and any(key not in ks for ks in keysets[1:]):
+            return None
+        return "CompileError for column %d without a row lacking it" % key
+    if op == OP_MVAL and any(k in keysets[0] and kinds.get(k) in (NONE, SERVER) and any(k not in ks for ks in keysets[1:])
+                             for k in kinds):
+        return "a multi-values row lacks a column without default but no CompileError was raised"
     if obs[0] == 1:
         # documented: every parameter set must have (at least) the keys of the first
         if orm:
@@ -359,7 +464,7 @@ def _check(inp, obs, info):
         if g < len(psets) and key in keysets[0] and key not in keysets[g]:
             return None
         return "required-bind error for a key the parameter set has (group %d key %d)" % (g, key)
-    if not orm and any(not (keysets[0] <= ks) for ks in keysets):
+    if not orm and op != OP_MVAL and any(not (keysets[0] <= ks) for ks in keysets):
         return "a parameter set lacks a key of the first one but no error was raised"
     rows, counts = obs[1], obs[2]
     nbase = len(base)
@@ -409,9 +514,12 @@ def _check(inp, obs, info):
                     if orm and op == OP_OINS and want is None and d[0] != NONE:
                         tagged.append("orm-none-omitted: " + msg)
                         fired[key] = fired.get(key, 0) + 1
-                    elif not orm and len(psets) > 1 and key not in keysets[0]:
+                    elif many and len(psets) > 1 and key not in keysets[0]:
                         tagged.append("heterogeneous-executemany: " + msg)
                         fired[key] = fired.get(key, 0) + 1
+                    elif op == OP_MVAL and key not in keysets[0] and d[0] in (NONE, SERVER):
+                        # the column is not in the VALUES list row 0 decided
+                        tagged.append("multivalues-first-row: " + msg)
                     else:
                         problems.append(msg)
                 continue
@@ -433,7 +541,7 @@ def _check(inp, obs, info):
                 ok = got is not None
                 # (a Core executemany row with keys the first set lacks has those keys ignored - the known
                 # deviation - so the context legitimately lacks them: exact check only for conforming rows)
-                extra_keys = (not orm) and len(psets) > 1 and not (set(pd) <= keysets[0])
+                extra_keys = many and len(psets) > 1 and not (set(pd) <= keysets[0])
                 if ok and not tagged and not extra_keys:
                     s_ = 0
                     for cj, (k2, d2) in enumerate(cols):
@@ -454,7 +562,7 @@ def _check(inp, obs, info):
             want = len(omitted_rows.get(key, []))
             if cnt.get(d[1], 0) != want:
                 msg = "callable of c%d called %d times, %d rows omit the column" % (key, cnt.get(d[1], 0), want)
-                if not orm and len(psets) > 1 and any(ks != keysets[0] for ks in keysets):
+                if many and len(psets) > 1 and any(ks != keysets[0] for ks in keysets):
                     tagged.append("heterogeneous-executemany: " + msg)
                 elif orm and op == OP_OINS and any(dict((k, v) for k, v in p).get(key, 0) == [] for p in psets):
                     tagged.append("orm-none-omitted: " + msg)
@@ -484,6 +592,32 @@ def _check(inp, obs, info):
     return None
 
 
+def _check_pk(inp, obs, info):
+    """a pre-executed primary key default: the fetched value - 0, '', False included - is the key"""
+    op, cols, base, psets, flags = inp
+    if obs[0] != 0:
+        return "unexpected error"
+    if op == OP_PKPRE:
+        want = None if flags[0] == [] else flags[0]
+        stored = obs[1][len(base)][0] if len(obs[1]) > len(base) else None
+    else:
+        want = ["", False, 0, "0"][flags[0]]
+        rr = info.get("raw_rows") or []
+        stored = rr[len(base)][0] if len(rr) > len(base) else None
+        if flags[0] == 1 and stored is not None:
+            stored = bool(stored)
+    ipk = (info.get("ipk") or [[None]])[0][0]
+    if want is None:
+        # a primary key default that evaluates to NULL is a misconfiguration: the database assigns the key and
+        # inserted_primary_key stays (None,); only the stored row is compared with the model
+        return None
+    if stored != want or type(stored) is not type(want):
+        return "primary key default evaluates to %r but the stored key is %r" % (want, stored)
+    if ipk != want or type(ipk) is not type(want):
+        return "primary key default evaluates to %r (stored %r) but inserted_primary_key is %r" % (want, stored, ipk)
+    return None
+
+
 def V2(v):
     return None if v == [] else v
 
@@ -499,6 +633,8 @@ def match_finding(c, what):
         return "C13-executemany-first-dict-decides-keys"
     if what.startswith("orm-none-omitted: "):
         return "C13-orm-insert-none-fires-default"
+    if what.startswith("multivalues-first-row: "):
+        return "C13-multivalues-first-row-decides-columns"
     return None
 
 
